@@ -233,6 +233,9 @@ package api
 //@   modifies ctx
 //@   let p = reqpath(ctx)
 //@   let b = reqbody(ctx)
+//@   let pathcase = p == "/totp/generate" ? 1 : (p == "/totp/validate" ? 2 : (p == "/hotp/generate" ? 3 : (p == "/hotp/validate" ? 4 : (p == "/ocra/generate" ? 5 :
+//@ |   (p == "/ocra/validate" ? 6 : (p == "/ocra/suites" ? 7 : (p == "/ocra/suite" ? 8 : (p == "/otp/url" ? 9 : (p == "/otp/secret" ? 10 : (p == "/" ? 11 : (p == "/docs" ? 12 : 0)))))))))))
+//@   split pathcase in 0..12
 //@   ensures[notfound] !postpath(p) && !getpath(p) && p != "/docs" && !hasprefix(p, "/docs/") ==> respstatus(ctx) == 404 && respnbody(ctx) == 1
 //@   ensures[docs] p == "/docs" ==> respstatus(ctx) == 302
 //@   ensures[post] postpath(p) && !ispost(ctx) ==> respstatus(ctx) == 405
